@@ -1301,6 +1301,8 @@ size_t ZSTD_decompressContinue(ZSTD_DCtx* dctx, void* dst, size_t dstCapacity, c
     {
     case ZSTDds_getFrameHeaderSize :
         assert(src != NULL);
+        /* after a completed frame nothing is expected (0) : a call with no input must not read a header */
+        RETURN_ERROR_IF(srcSize < ZSTD_startingInputLength(dctx->format), srcSize_wrong, "no frame header to read");
         if (dctx->format == ZSTD_f_zstd1) {  /* allows header */
             assert(srcSize >= ZSTD_FRAMEIDSIZE);  /* to read skippable magic number */
             if ((MEM_readLE32(src) & ZSTD_MAGIC_SKIPPABLE_MASK) == ZSTD_MAGIC_SKIPPABLE_START) {        /* skippable frame */
